@@ -32,9 +32,9 @@ META = {
                    'fromisoformat/fromtimestamp/UUID/Decimal/Path/pytimeparse computed by the real functions on the leaves of each '
                    'document). Input immutability is carried by the direct predicate only (a pure model cannot mutate). '
                    'v1: direct predicate only (no theorem).'),
-    'rule': ('class models: every leaf type x every container position to depth 2 (quick) / 3 (thorough) packed into classes of <= 4 fields + '
-             'random class models (quick 60, thorough 1200); per class: 1 well-typed document (JSON image of a conforming instance) + '
-             'k mutated documents (quick 4, thorough 8): one position replaced by junk from a 40-value pool (null, bools, huge int, nan, inf, '
+    'rule': ('class models: every leaf type x every container position to depth 2 (quick) / 3 (thorough: a seed-rotated quarter of the depth-3 positions) packed into classes of <= 4 fields + '
+             'random class models (quick 60, thorough 500); per class: 1 well-typed document (JSON image of a conforming instance) + '
+             'k mutated documents (quick 4, thorough 6): one position replaced by junk from a 40-value pool (null, bools, huge int, nan, inf, '
              "'', numeric strings, lists, objects), keys dropped/renamed/added, lists truncated/extended/doubled. Each document x {default, v1, "
              'from_json}. Non-trivial: the document differs from the well-typed one or the class has a container/union/class layer. '
              'Distinct: distinct (class digest | document digest | engine).'),
@@ -51,12 +51,30 @@ FINDINGS = ['F23-union-without-none-passes-none', 'F24-short-tuple-with-optional
 
 
 def coq_eval_sharded(ctx, exprs, imports, tag='cases', shard=40):
-    """Like ctx.coq but with small shards: the expressions carry large literal terms (oracle tables),
+    """Like ctx.coq but with small shards: the expressions carry large literal terms,
     so elaboration time dominates and more, smaller coqc processes use the cores better."""
     import os
     from lib import coqrun
     d = os.path.join(ctx.workdir, tag)
-    return coqrun.coq_eval(exprs, imports, d, jobs=12 if ctx.tier == 'quick' else 14, timeout=900, shard=shard)
+    return coqrun.coq_eval(exprs, imports, d, jobs=6, timeout=900, shard=shard)
+
+
+def coq_eval_groups(ctx, groups, imports, tag='groups', jobs=6):
+    """groups: list of (prelude text, [expr]).  One coqc process per group (its prelude holds the
+    definitions shared by the group's expressions, e.g. one oracle table per class model), at most
+    `jobs` processes at a time (memory: literal terms are expensive to elaborate)."""
+    import os, concurrent.futures as cf
+    from lib import coqrun
+
+    def one(ix):
+        prelude, exprs = groups[ix]
+        d = os.path.join(ctx.workdir, '%s_%d' % (tag, ix))
+        return coqrun.coq_eval(exprs, imports, d, prelude=prelude, jobs=1, timeout=900, shard=max(1, len(exprs)))
+    out = []
+    with cf.ThreadPoolExecutor(max_workers=jobs) as ex:
+        for r in ex.map(one, range(len(groups))):
+            out.extend(r)
+    return out
 
 
 # ---- canonicalisation of the show text (sets and plain dicts are unordered) ----------------
@@ -132,8 +150,8 @@ def make_cases(ctx):
     items = systematic_types(g, 2 if ctx.tier == 'quick' else 3)
     if ctx.tier != 'quick':
         d3 = [it for it in items if it[0].count('<') == 2]
-        items = [it for it in items if it[0].count('<') < 2] + [it for i, it in enumerate(d3) if i % 2 == ctx.seed % 2]
-    n_mut = 4 if ctx.tier == 'quick' else 8
+        items = [it for it in items if it[0].count('<') < 2] + [it for i, it in enumerate(d3) if i % 4 == ctx.seed % 4]
+    n_mut = 4 if ctx.tier == 'quick' else 6
     # bytes/bytearray never load from JSON text in the default engine: keep them apart so that they
     # do not turn every document of a class into an error
     items = [it for it in items if 'bytes' not in it[0] and 'bytearray' not in it[0]] + \
@@ -144,7 +162,7 @@ def make_cases(ctx):
         cases.append({'root': root, 'value': g.value(root), 'seed': r.getrandbits(48), 'n_mut': n_mut,
                       'labels': [l for l, _ in chunk], 'src': 'systematic'})
     r2 = ctx.sub_rng('rand')
-    for j in range(60 if ctx.tier == 'quick' else 1200):
+    for j in range(60 if ctx.tier == 'quick' else 500):
         g2 = Gen(r2, {'neg_timedelta': False, 'nonfinite': False})
         nf = r2.choice([1, 2, 3, 4])
         tys = [g2.rand_type(r2.choice([1, 2, 3])) for _ in range(nf)]
@@ -210,19 +228,32 @@ def run(ctx):
         results.extend(ctx.impl('c05', {'cases': [strip(c) for c in cases[i:i + B]]}, timeout=1500)['cases'])
 
     # ---- model -----------------------------------------------------------------------------------
-    exprs, where = [], []
+    # one group of <= 8 class models per coqc process; per class model one shared oracle table
+    groups, where = [], []
+    cur_pre, cur_ex, cur_n = [], [], 0
     for ci, (c, res) in enumerate(zip(cases, results)):
         if 'setup_err' in res or 'skip' in res:
             continue
         lets = ''.join('let %s := %s in ' % (n, t) for n, t in res['lets'])
+        entries, seen = [], set()
+        for d in res['docs']:
+            for e in d.get('tbl', []):
+                if e not in seen:
+                    seen.add(e); entries.append(e)
+        cur_pre.append('Definition ty_%d : ty := %s%s.' % (ci, lets, res['coq_t']))
+        cur_pre.append('Definition tbl_%d : list ((pstr * pv) * option pv) := [%s].' % (ci, '; '.join(entries)))
         for di, d in enumerate(res['docs']):
             if 'coq_j' in d:
-                exprs.append('%sshow_res (load (tbl_orc [%s]) (mkL (S "__tag__")) %s %s)' % (
-                    lets, '; '.join(d['tbl']), res['coq_t'], d['coq_j']))
+                cur_ex.append('show_res (load (tbl_orc tbl_%d) (mkL (S "__tag__")) ty_%d %s)' % (ci, ci, d['coq_j']))
                 where.append((ci, di))
+        cur_n += 1
+        if cur_n >= 8:
+            groups.append(('\n'.join(cur_pre), cur_ex)); cur_pre, cur_ex, cur_n = [], [], 0
+    if cur_ex:
+        groups.append(('\n'.join(cur_pre), cur_ex))
     model = {}
     try:
-        outs = coq_eval_sharded(ctx, exprs, ['CoreLoad'])
+        outs = coq_eval_groups(ctx, groups, ['CoreLoad'])
         model = dict(zip(where, outs))
     except Exception as e:
         ctx.broken_tie('model evaluation failed: %s' % str(e)[:800])
